@@ -460,7 +460,8 @@ class Ctx:
         if f is None:
             return
         for p in points:
-            classes = core.held_classes_at(p.fn, p.bb, p.idx) | {'ty:' + t for t in core.held_types_at(p.fn, p.bb, p.idx)}
+            # must-analysis: the guard is live on EVERY path reaching the point
+            classes = core.held_classes_at(p.fn, p.bb, p.idx, must=True) | {'ty:' + t for t in core.held_types_at(p.fn, p.bb, p.idx, must=True)}
             descs = [lock_desc] if isinstance(lock_desc, str) else list(lock_desc)
             ok = any(c == d or c.endswith('.' + d) or c.endswith(d) for c in classes for d in descs)
             self._ob(ok, self.sample('held', p.fn, p.line, what or ('%s under lock %s (held: %s)' % (p.desc, lock_desc, sorted(classes)))))
